@@ -13,8 +13,12 @@ def _unbold_heading_transformer(element: Element) -> None:
     """
     # Setext headings are rendered as ATX headings, so they get the same cleanup.
     if isinstance(element, (block.Heading, block.SetextHeading)):
-        # Check if the heading consists *only* of a single StrongEmphasis element
-        if len(element.children) == 1 and isinstance(element.children[0], inline.StrongEmphasis):
+        # Check if the heading consists *only* of a single StrongEmphasis element.
+        # Repeated, so that bold nested in bold (`# ****text****`, `# **__text__**`) is
+        # removed in one run and not one level per run.
+        while len(element.children) == 1 and isinstance(
+            element.children[0], inline.StrongEmphasis
+        ):
             # Replace the heading's children with the children of the StrongEmphasis element
             strong_emphasis_node = element.children[0]
             # Type checker struggles here, but StrongEmphasis children should be Elements.
@@ -22,9 +26,9 @@ def _unbold_heading_transformer(element: Element) -> None:
 
         # Handle the case where the heading is bold and italic (StrongEmphasis inside Emphasis or vice versa)
         # ***text***  -> *text*
-        elif len(element.children) == 1 and isinstance(element.children[0], inline.Emphasis):
+        if len(element.children) == 1 and isinstance(element.children[0], inline.Emphasis):
             emphasis_node = element.children[0]
-            if len(emphasis_node.children) == 1 and isinstance(
+            while len(emphasis_node.children) == 1 and isinstance(
                 emphasis_node.children[0], inline.StrongEmphasis
             ):
                 strong_node = emphasis_node.children[0]
